@@ -22,6 +22,7 @@ EXPLANATION = (
     "converted fields; the only unchanged return is guarded by an empty renaming map. R05.3 substitute stops at terms whose inputs "
     "are disjoint from the substituted names and only fresh names are handed to eager_subs. R05.4 the gensym counter is written only "
     "inside gensym by += 1 before it is read. R05.5 the reserved marker literal is the same everywhere it is used."
+    ' Added since: R05.1 also requires that a rebuilt renaming map is filtered at most by membership in the inputs of every funsor-valued field and that keys/values of a mapping of bound names are not sorted independently; R05.6 a rewrite moves the binders of an inner contraction over sibling operands only under a kind-consistent freshness test (or vacuously).'
 )
 ASSUMPTIONS = [
     "the value semantics of renamed terms is not decided (runtime)",
